@@ -130,9 +130,6 @@ Section SG.
     - apply InvL_init.
   Qed.
 
-  (** ** race freedom *)
-  Hypothesis Hrace : sg_race_ok p = true.
-
   Lemma pending_next : forall (s : st) i a, pend s i = Some a ->
     exists l, nth_error (thr s) i = Some l /\ sg_next p i l = Some a.
   Proof.
@@ -141,56 +138,11 @@ Section SG.
     destruct (enabledb _ _ s i b); try discriminate. exists l. split; congruence.
   Qed.
 
-  (** an access to the pointer by a thread that does not hold the mutex is atomic, and if such
-      an access exists the store is atomic as well *)
-  Lemma unlocked_access_atomic : forall (s : st) i l a,
-    InvL s -> nth_error (thr s) i = Some l -> sg_next p i l = Some a ->
-    lockedb (pc l) = false ->
-    match a with
-    | ARead m _ => m = Atomic /\ sg_store p = Atomic
-    | AWrite _ _ _ => False
-    | _ => True
-    end.
-  Proof.
-    intros s i l a Hs Hl Ha Lk. destruct (Hs _ _ Hl) as (_ & Fi & Rt).
-    unfold sg_next in Ha. unfold sg_race_ok in Hrace.
-    destruct (pc l) eqn:Epc; simpl in Lk; try discriminate.
-    - destruct (sg_first p) as [m|] eqn:Ef; inversion Ha; subst; auto.
-      destruct (sg_ret p) as [|m' lk]; repeat (apply andb_true_iff in Hrace; destruct Hrace as [Hrace ?]);
-        destruct m, (sg_store p); simpl in *; try discriminate; auto.
-    - inversion Ha; subst; auto.
-    - inversion Ha; subst. unfold ret_mode.
-      destruct (Rt eq_refl) as (m & lk & Er & D). rewrite Er in *.
-      destruct (sg_first p) as [m'|]; [|destruct D as [D|D]; [congruence|subst lk]];
-        destruct (sg_store p);
-        repeat match goal with x : mode |- _ => destruct x end; simpl in *; try discriminate; auto.
-  Qed.
-
-  Lemma next_write : forall i l m lo v, sg_next p i l = Some (AWrite m lo v) -> m = sg_store p.
+  Lemma next_write : forall i l m lo v,
+    sg_next p i l = Some (AWrite m lo v) -> pc l = PStore /\ m = sg_store p.
   Proof.
     unfold sg_next. intros i l m lo v H.
     destruct (pc l); try destruct (sg_first p); inversion H; auto.
-  Qed.
-
-  Theorem sg_race_free : forall n sched, ~ race_state sg_local (sg_next p) (sg_run p n sched).
-  Proof.
-    intros n sched (i & j & a & b & Nij & Pi & Pj & C).
-    pose proof (InvL_run n sched) as Hs.
-    apply pending_next in Pi. apply pending_next in Pj.
-    destruct Pi as (li & Hli & Hai). destruct Pj as (lj & Hlj & Haj).
-    destruct (lockedb (pc li)) eqn:Li; destruct (lockedb (pc lj)) eqn:Lj.
-    - apply Nij. eapply InvL_exclusive; eauto.
-    - pose proof (unlocked_access_atomic _ _ _ _ Hs Hlj Haj Lj) as U.
-      destruct a, b; simpl in C; try discriminate; try contradiction.
-      destruct U as [-> St]. apply next_write in Hai. rewrite St in Hai. subst m.
-      simpl in C. rewrite andb_false_r in C. discriminate.
-    - pose proof (unlocked_access_atomic _ _ _ _ Hs Hli Hai Li) as U.
-      destruct a, b; simpl in C; try discriminate; try contradiction.
-      destruct U as [-> St]. apply next_write in Haj. rewrite St in Haj. subst m0.
-      simpl in C. rewrite andb_false_r in C. discriminate.
-    - pose proof (unlocked_access_atomic _ _ _ _ Hs Hli Hai Li) as U.
-      pose proof (unlocked_access_atomic _ _ _ _ Hs Hlj Haj Lj) as V.
-      destruct a, b; simpl in C; try discriminate; try contradiction.
   Qed.
 End SG.
 
@@ -430,6 +382,45 @@ Section ONCE.
     destruct (InvR_run n sched _ _ Hl) as [R _]. specialize (R Hd).
     destruct (res l) as [v|] eqn:Er; [|congruence].
     destruct (HT _ _ Hl) as (_ & _ & _ & T4). destruct (T4 _ Er) as [-> M]. auto.
+  Qed.
+
+  (** ** race freedom: the only access that can coincide with the store of the pointer is the
+      unlocked first check (a thread past its own critical section or past a successful first
+      check sees a pointer that is never written again) *)
+  Hypothesis Hrace : sg_race_ok p = true.
+
+  Theorem sg_race_free : forall n sched, ~ race_state sg_local (sg_next p) (sg_run p n sched).
+  Proof.
+    intros n sched.
+    assert (K : forall i j a b, i <> j ->
+              pending sg_local (sg_next p) (sg_run p n sched) i = Some a ->
+              pending sg_local (sg_next p) (sg_run p n sched) j = Some b ->
+              (exists m lo v, a = AWrite m lo v) -> conflict a b = true -> False).
+    { intros i j a b Nij Pi Pj (m & lo & v & ->) C.
+      destruct (InvO_run n sched) as (HL & _ & HT).
+      apply pending_next in Pi. apply pending_next in Pj.
+      destruct Pi as (li & Hli & Hai). destruct Pj as (lj & Hlj & Haj).
+      apply next_write in Hai. destruct Hai as [Epi ->].
+      destruct (HT _ _ Hli) as (_ & T2 & _). destruct (T2 Epi) as (Mz & _).
+      destruct (HT _ _ Hlj) as (_ & _ & T3 & _).
+      destruct (HL _ _ Hlj) as (_ & Fj & _).
+      assert (X : lockedb (pc lj) = true -> False).
+      { intros Lj. apply Nij. eapply (InvL_exclusive p _ i j li lj); eauto. rewrite Epi. auto. }
+      unfold sg_next in Haj. unfold sg_race_ok in Hrace. rewrite Honce in Hrace. simpl in Hrace.
+      destruct (pc lj) eqn:Epj; try (apply X; reflexivity).
+      - destruct (sg_first p) as [mf|] eqn:Ef; [|exfalso; apply Fj; auto].
+        inversion Haj; subst b. simpl in C.
+        apply andb_true_iff in Hrace. destruct Hrace as [A B].
+        destruct mf, (sg_store p); simpl in *; try discriminate.
+        rewrite andb_false_r in C. discriminate.
+      - inversion Haj; subst b. simpl in C. discriminate.
+      - destruct T3 as [M1 _]; auto. rewrite Mz in M1. discriminate.
+      - discriminate. }
+    intros (i & j & a & b & Nij & Pi & Pj & C).
+    destruct a, b; simpl in C; try discriminate.
+    - eapply (K j i); eauto. simpl. rewrite Nat.eqb_sym, orb_comm. exact C.
+    - eapply (K i j); eauto.
+    - eapply (K i j); eauto.
   Qed.
 End ONCE.
 
